@@ -162,3 +162,28 @@ def _(c):
     c.ensures("result == True", "no-two-admissible-prefix+symbol-spellings-coincide")
     c.no_raise()
     c.modifies()
+
+
+# ---- numbers inside unit expressions: every float notation the grammar admits denotes that float ------------------------------------
+NUMBERS = ["1", "60", "2.5", ".5", "10.", "1e3", "1e+3", "2.5e-3", "6.02214076e+23", "1.602176634e-19", "-3", "-1e+2", "-2.5e-1", "1e05", "0", "0.0"]
+
+
+@contract("units/unit_solver.py::AtomParser", ["C03"], name="AtomParser[numbers]")
+def _(c):
+    c.bound = "the listed numerals (integer, decimal, exponent with and without sign, negative)"
+    for s in NUMBERS:
+        c.scenario(s, (lambda s: lambda b: dict(args=[s], env=dict(want=float(s))))(s))
+    c.ensures("result.magnitude == want and len(result.baseunits) == 0", "a-plain-number-with-that-value")
+    c.no_raise()
+
+
+@contract(f"{Q}.__init__", ["C03"], name="Quantity.__init__[numeric-factors]")
+def _(c):
+    c.bound = "unit expressions with numeric factors in every float notation"
+    for expr, terms, num in [("1e+3*m", [("", "m", 1, 1)], 1e3), ("m/1e-3", [("", "m", 1, 1)], 1e3), ("2.5e+2*cm", [("c", "m", 1, 1)], 250.0), ("kg*1e+0", [("k", "g", 1, 1)], 1.0),
+                             ("1e3*m", [("", "m", 1, 1)], 1e3), ("60*s", [("", "s", 1, 1)], 60.0), ("-2*m", [("", "m", 1, 1)], -2.0)]:
+        def pre(b, expr=expr, terms=terms, num=num):
+            return dict(args=[b.obj(Q), b.real("x"), expr], env=dict(f=U.factor(terms) * num))
+        c.scenario(expr, pre)
+    c.ensures("near(self.magnitude.value * self.baseunits.magnitude, magnitude * f)", "factor-is-the-product-of-the-terms")
+    c.no_raise()
